@@ -503,6 +503,22 @@ def helpers(run, repo, I, m, values):
                   '%s via %s' % (fns[(a, c3)], b),
                   '%s(%s(x)) differs from %s(x)' % (fns[(b, c3)], fns[(a, b)], fns[(a, c3)]), m,
                   m.functions[fns[(a, c3)]])
+    # arrays: every helper maps an array element by element and leaves the caller's array alone
+    from ..xlate import ListV as _LV
+    for (a, b), name in sorted(fns.items()):
+        xs = [I.D.sym('x0'), I.D.sym('x1')]
+        arr = _LV(list(xs))
+        arr.is_array = True
+        r = app(name, arr)
+        each = [app(name, v) for v in xs]
+        ok = isinstance(r, _LV) and len(r) == 2 and all(isinstance(p_, Rat) and p_.eq(q_) for p_, q_ in
+                                                          zip(r.items, each))
+        run.check(ok, 'BRANCH-TWIN.helper', 'constants.%s' % name, 'array argument',
+                  '%s of an array is %r, element by element %r' % (name, r, each), m, m.functions[name])
+        run.check(len(arr.items) == 2 and all(p_ is q_ for p_, q_ in zip(arr.items, xs)), 'EFFECT.argument',
+                  'constants.%s' % name, 'array argument',
+                  '%s modifies the array it was given (now %r): a second use of the caller\'s array sees converted '
+                  'values' % (name, arr), m, m.functions[name])
     # textbook anchors (REF): E = h nu = kB T = h c nu~  (cm/s because wavenumbers are in 1/cm)
     h = I.D.sym('h_dict[J s]')
     kb = I.D.sym('kb_dict[J/K]')
